@@ -243,12 +243,43 @@ func blsKey(i int) []byte {
 }
 
 func newEnv(c *simkit.Ctx, cfg envCfg) *env {
-	e := &env{c: c, ch: newChain(), ep: &epochs{}, marsh: &marshal.GogoProtoMarshalizer{}, cfg: cfg}
+	e := &env{c: c, ch: newChain(), marsh: &marshal.GogoProtoMarshalizer{}, cfg: cfg}
+	if !e.build() {
+		return nil
+	}
+	// genesis: every contract of the container that is usable gets its init call, as deploySystemSmartContracts does
+	for _, addr := range [][]byte{vm.StakingSCAddress, vm.ValidatorSCAddress, vm.ESDTSCAddress, vm.GovernanceSCAddress} {
+		if !e.create(addr) {
+			c.HarnessErr("genesis init of %x failed", addr)
+			return nil
+		}
+	}
+	e.maybeInitManager()
+	e.ch.nonce = 1
+	e.ch.round = 1
+	return e
+}
+
+// restart models a node restart with a changed configuration: the eei, the system contracts and the systemVM
+// are created again (e.cfg) over the same chain state; nothing is initialised again.
+func (e *env) restart() bool {
+	old := e.spy
+	if !e.build() {
+		return false
+	}
+	e.spy.failedNested, e.spy.failedDeep, e.spy.okTxAfterFailedWrites = old.failedNested, old.failedDeep, old.okTxAfterFailedWrites
+	return true
+}
+
+// build creates eei, spy, container and systemVM for e.cfg over e.ch at the current epoch.
+func (e *env) build() bool {
+	c, cfg := e.c, e.cfg
+	e.ep = &epochs{cur: e.ch.epoch}
 	accounts := &testscommon.AccountsStub{GetExistingAccountCalled: e.ch.peerAccount}
 	real, err := systemSmartContracts.NewVMContext(e.ch, cryptoStub{}, parsers.NewCallArgsParser(), accounts, chanceStub{})
 	if err != nil {
 		c.HarnessErr("NewVMContext: %v", err)
-		return nil
+		return false
 	}
 	e.eei = real
 	e.spy = newSpy(c, real, e.ch)
@@ -298,30 +329,20 @@ func newEnv(c *simkit.Ctx, cfg envCfg) *env {
 	f, err := vmFactory.NewSystemSCFactory(args)
 	if err != nil {
 		c.HarnessErr("NewSystemSCFactory: %v", err)
-		return nil
+		return false
 	}
 	e.cont, err = f.Create()
 	if err != nil {
 		c.HarnessErr("systemSCFactory.Create: %v", err)
-		return nil
+		return false
 	}
 	// the factory registered the spy's container on the spy; the real eei needs it as well (spy forwards it)
 	e.svm, err = vmProcess.NewSystemVM(vmProcess.ArgsNewSystemVM{SystemEI: e.spy, SystemContracts: e.cont, VmType: []byte{0, 1}, GasSchedule: gasSchedule})
 	if err != nil {
 		c.HarnessErr("NewSystemVM: %v", err)
-		return nil
+		return false
 	}
-	// genesis: every contract of the container that is usable gets its init call, as deploySystemSmartContracts does
-	for _, addr := range [][]byte{vm.StakingSCAddress, vm.ValidatorSCAddress, vm.ESDTSCAddress, vm.GovernanceSCAddress} {
-		if !e.create(addr) {
-			c.HarnessErr("genesis init of %x failed", addr)
-			return nil
-		}
-	}
-	e.maybeInitManager()
-	e.ch.nonce = 1
-	e.ch.round = 1
-	return e
+	return true
 }
 
 // maybeInitManager runs the delegation manager's init once it is enabled (systemSCProcessor.initDelegationSystemSC).
